@@ -5,7 +5,12 @@ HERE = os.path.dirname(os.path.dirname(os.path.abspath(__file__)))
 ALL = ["C%02d" % i for i in range(1, 21)]
 
 # property id -> dict(text, note, technique, design_ref)   (only properties with a working check)
-CLAIMED = {}
+CLAIMED = {
+ "C18": dict(
+   text="Unbounded theorems (33) about definitions that tools/c2g regenerates from /repo's C source on every run: 128-bit add/sub/shift/bit/compare/logic = arithmetic mod 2^128 for all operands and all shift counts 0 <= s < 2^31, tree bias = closest member of its interval and intervals partition, lower-bound and range search correct for every sorted array, length and initial guess (loop invariant + fuel bound), integer powers = base^exp mod word size, log2/round-up macros (256-entry table decided entry by entry). A code change alters the generated definitions, so the kernel re-checks the theorems against what the code says now; translator validation runs the extracted generated functions against the compiled C functions on ~39k grid/random cases and an independent oracle judges every C output.",
+   note="Trusted: Coq kernel, the c2g translator + clang AST (validated differentially on every run), extraction, harness. Assumes parameters in the range of their C types, distinct pointer parameters do not alias, signed overflow wraps (intpow squaring is UB in C; harness built with -fwrapv). sc_bsearch_range's comparison callback is abstracted as two functions consistent with a sorted integer array.",
+   technique="Rocq proof over translator-generated Gallina (T1) + differential translator validation"),
+}
 
 NOT_YET = "machinery for this property is not built yet in this revision (planned, see DESIGN.md section 6); no claim is made"
 
